@@ -508,14 +508,19 @@ class PteraTransformer(NodeTransformer):
                 orig=target,
             )
 
-        elif isinstance(target, ast.Tuple):
+        elif isinstance(target, (ast.Tuple, ast.List)):
             stmts = []
             for entry in target.elts:
                 stmts.extend(self.generate_interactions(entry))
             return stmts
 
-        else:  # pragma: no cover
-            raise NotImplementedError(target)
+        elif isinstance(target, ast.Starred):
+            return self.generate_interactions(target.value)
+
+        else:
+            # Attribute or subscript inside of a compound target: it is
+            # assigned by Python, there is no variable to interact about
+            return []
 
     def visit_FunctionDef(self, node, root=False):
         if not root:
@@ -717,15 +722,15 @@ class PteraTransformer(NodeTransformer):
         if len(targets) > 1:
             return _decompose(targets, lambda value, i: value)
 
-        elif isinstance(targets[0], ast.Tuple):
-            return _decompose(
-                targets[0].elts,
-                lambda value, i: ast.Subscript(
-                    value=value,
-                    slice=ast.Index(value=ast.Constant(i)),
-                    ctx=ast.Load(),
+        elif isinstance(targets[0], (ast.Tuple, ast.List)):
+            # Let Python do the unpacking (any iterable, starred targets,
+            # length checks), then interact for each name that was bound
+            return [
+                ast.copy_location(
+                    ast.Assign(targets=targets, value=node.value), node
                 ),
-            )
+                *self.generate_interactions(targets[0]),
+            ]
         else:
             return self.make_interaction(
                 targets[0], None, node.value, orig=node
